@@ -143,6 +143,15 @@ class Driver:
                 v[f] = vals
         elif op == "add_fields":
             names = list(e["shape"])
+            if v.fields and self.rng.random() < 0.6:
+                # a refused request first (the model's AddFields is enabled for new, pairwise different names only): a
+                # list that mixes an existing name with a new one must be rejected as a whole and change nothing
+                try:
+                    v.add_fields([names[0], v.fields[-1]] if self.rng.random() < 0.5 else [v.fields[0], names[0]])
+                except ValueError:
+                    pass
+                else:
+                    raise RuntimeError("add_fields accepted a list that contains an existing field name")
             v.add_fields(names[0] if len(names) == 1 and self.rng.random() < 0.5 else names)
         elif op == "remove_fields":
             f = v.fields[e["n1"] - 1]
